@@ -909,8 +909,23 @@ SWEEP_NS = list(range(0, 21)) + list(range(30, 35)) + list(range(254, 259))
 def sweep_sequences(ctx):
     """Replies (and argument lists) of exactly n elements / characters / bytes, n around 15/16,
     31/32, 255/256 (thorough: 65535/65536): the array, map, str and bin length formats."""
+    seqs = []
+    for k in range(0, len(SWEEP_NS), 6):
+        seqs.extend(sweep_chunk(ctx, SWEEP_NS[k:k + 6], k == 0))
+    if ctx.thorough():
+        cfg = {'call': ['configure', CONFIGURE_OK[0], {}]}
+        steps = [cfg]
+        for n in (65534, 65535, 65536, 65537):
+            steps += [{'call': ['eval', [src], {}]} for src in (
+                'return list(range(%d))' % n, 'return "a" * %d' % n, 'return "\\u00e9" * %d' % (n // 2),
+                'return b"x" * %d' % n, 'return {i: None for i in range(%d)}' % n)]
+            steps.append({'call': ['lint', ['#' + 'c' * (n - 1), X], {}]})
+        seqs.append({'files': FILES, 'steps': steps, 'tag': 'sweep-64K'})
+    return seqs
+
+
+def sweep_chunk(ctx, ns, first):
     cfg = {'call': ['configure', CONFIGURE_OK[0], {}]}
-    ns = SWEEP_NS
     seqs = []
 
     def ev(src):
@@ -927,7 +942,7 @@ def sweep_sequences(ctx):
                   ev('return [{(i, i): None for i in range(%d)}]' % n)]
     seqs.append({'files': FILES, 'steps': steps, 'tag': 'sweep-maps'})
     steps = [cfg]
-    for n in sorted(set(ns + [10, 11, 63, 64, 85, 86, 127, 128, 129])):
+    for n in sorted(set(ns + ([10, 11, 63, 64, 85, 86, 127, 128, 129] if first else []))):
         steps += [ev('return "a" * %d' % n), ev('return "\\u00e9" * %d' % n), ev('return "\\u4e2d" * %d' % n),
                   ev('return "\\U0001f600" * %d' % n), ev('return b"x" * %d' % n), ev('return ["ab" * %d, b"\\xff" * %d]' % (n, n)),
                   ev('raise ValueError("m" * %d)' % n)]
@@ -950,13 +965,6 @@ def sweep_sequences(ctx):
         loc = 'if a:\n    pass\n' + ''.join('elif a == %d:\n    x = %d\n' % (i, i) for i in range(n)) + 'x'
         steps.append({'call': ['location', [loc, {'$tuple': [loc.count('\n') + 1, 1]}, X], {}]})
     seqs.append({'files': files, 'steps': steps, 'tag': 'sweep-assist-location'})
-    if ctx.thorough():
-        steps = [cfg]
-        for n in (65534, 65535, 65536, 65537):
-            steps += [ev('return list(range(%d))' % n), ev('return "a" * %d' % n), ev('return "\\u00e9" * %d' % (n // 2)),
-                      ev('return b"x" * %d' % n), ev('return {i: None for i in range(%d)}' % n),
-                      {'call': ['lint', ['#' + 'c' * (n - 1), X], {}]}]
-        seqs.append({'files': FILES, 'steps': steps, 'tag': 'sweep-64K'})
     return seqs
 
 
@@ -1240,13 +1248,24 @@ def _run(ctx):
     # ---- (I): the model predicts every observation ------------------------------------------
     bad = []
     t0 = time.time()
+    jobs, owners = [], []
     for terms, idxs, fn in ((sync_terms, sync_idx, 'check_sync'), (pipe_terms, pipe_idx, 'check_pipe'),
                             (sched_terms, sched_idx, 'check_sched')):
-        if not terms:
-            continue
-        per = max(1, min(40, 600000 // max(1, max(len(t) for t in terms))))
-        b = ctx.run_cases(['Model.Rpc'], PRELUDE, fn, terms, shard=per)
-        bad.extend(idxs[k] for k in b)
+        # shards of <= 40 cases and <= ~250 KB of Gallina, all evaluated in one parallel batch
+        order = sorted(range(len(terms)), key=lambda k: -len(terms[k]))
+        cur, size = [], 0
+        for k in order + [None]:
+            if k is None or (cur and (len(cur) >= 40 or size + len(terms[k]) > 250000)):
+                if cur:
+                    pre = PRELUDE + '\nDefinition cases__ := %s.\n' % coq_list([terms[q] for q in cur])
+                    jobs.append((['Model.Rpc'], pre, ['bad_idx (%s) cases__' % fn]))
+                    owners.append([idxs[q] for q in cur])
+                cur, size = [], 0
+            if k is not None:
+                cur.append(k)
+                size += len(terms[k])
+    for own, out in zip(owners, ctx.coq_eval_many(jobs, timeout=900)):
+        bad.extend(own[k] for k in out[0])
     bad = sorted(set(bad))
     ctx.log('model evaluated on %d cases in %.1fs' % (len(sync_terms) + len(pipe_terms) + len(sched_terms), time.time() - t0))
     cov['correspondence_cases'] = len(sync_terms) + len(pipe_terms) + len(sched_terms)
